@@ -172,7 +172,6 @@ class Run:
 
     def feed(self, chunk: bytes, n: int, st: bool, en: bool, seg: str) -> dict:
         before = len(self.got)
-        ncalls = len(INFL_LOG)
         escaped = ""
         try:
             self.reader.feed_data(chunk)
@@ -183,7 +182,7 @@ class Run:
               "msgs": [project(m) for m in self.got[before:]],
               "exc": 1 if escaped else self.exc_code(),
               "retained": retained_bytes(self.reader), "rpriv": retained_priv(self.reader),
-              "infl": INFL_LOG[ncalls:],
+              "c0": 0, "c1": len(INFL_LOG),
               "frags": len(getattr(self.reader, "_payload_fragments", ())),
               "paused": bool(self.proto._reading_paused)}
         return ev
@@ -197,16 +196,22 @@ class Run:
 def run_group(loop: steploop.StepLoop, name: str, stream: bytes, cfg: dict,
               segs: List[Tuple[str, List[int]]], src: str) -> dict:
     events: List[dict] = []
+    calls: List[dict] = []
     for sname, chunks in segs:
         del INFL_LOG[:]
         r = Run(loop, cfg)
         pos = 0
+        base = len(calls)
         for i, n in enumerate(chunks):
-            events.append(r.feed(stream[pos:pos + n], n, i == 0, i == len(chunks) - 1, sname))
+            ev = r.feed(stream[pos:pos + n], n, i == 0, i == len(chunks) - 1, sname)
+            ev["c0"], ev["c1"] = base, base + ev["c1"]
+            events.append(ev)
             pos += n
+        calls.extend(INFL_LOG)
+        del INFL_LOG[:]
         r.finish()
     c = {"compress": bool(cfg["compress"]), "decode": bool(cfg["decode"]), "max": int(cfg["max"]),
-         "K": K_CONST, "stream": list(stream)}
+         "K": K_CONST, "stream": list(stream), "calls": calls, "devs": []}
     return {"cfg": c, "src": src, "name": name, "events": events,
             "segs": [[s, ch] for s, ch in segs]}
 
